@@ -93,8 +93,15 @@ impl CanCastTo<ResolvedParamType> for ExpressionType {
                 _ => false,
             },
             Self::Array(box_element_type) => match target {
+                // arrays are never converted: the element types must be the same
                 ResolvedParamType::Array(target_element_type) => {
-                    box_element_type.can_cast_to(target_element_type)
+                    match (box_element_type.as_ref(), target_element_type.as_ref()) {
+                        (Self::BuiltIn(q), ResolvedParamType::BuiltIn(q_target, _)) => q == q_target,
+                        (Self::UserDefined(type_name), ResolvedParamType::UserDefined(target)) => {
+                            type_name == target
+                        }
+                        _ => false,
+                    }
                 }
                 _ => false,
             },
